@@ -4,8 +4,8 @@ from props.C06 import shape, sname, maxlen, shapes
 ASSUMPTIONS = ["prefix family: valid image of a concrete shape with symbolic payload, stream length symbolic in 0..total",
                "field family: one structural 32-bit field replaced by each boundary value of a list (0, valid+1, 9, 31, 32, 2^31-1, 2^31, 2^32-1, ...), allocation requests above VF_MAX_ALLOC fail with std::bad_alloc (an allocator may do that)",
                "reader kernel: the stream is a reader of arbitrary content (every byte of the file symbolic) with the allocation cap low enough that every table holds at most a few entries",
-               "saved games are NOT covered"]
-OUTSIDE = ["the saved-game reader (ReadSavedGame): the harness exists (h_savedgame) but its query runs out of solver memory; saved-game/map-file agreement is therefore not claimed", "allocations above VF_MAX_ALLOC that succeed (maps with more than a few dozen tiles / table entries)", "two or more fields corrupted at once (thorough tier adds pairs for the header)",
+               "saved games: unit-section kernel reader with arbitrary content; whole ReadSavedGame over a sparse reader whose window holds the embedded map and the unit header (object counts 0)"]
+OUTSIDE = ["saved games with non-zero object counts in the unit section (512-byte objects exceed the allocation cap)", "allocations above VF_MAX_ALLOC that succeed (maps with more than a few dozen tiles / table entries)", "two or more fields corrupted at once (thorough tier adds pairs for the header)",
            "byte strings that are not within one structural field of a shape in the family"]
 LEVEL_TEXT = ("Bounded model checking of the real readers over MemoryReader: memory safety (CBMC pointer checks on every access of the translated code), front-end UB traps "
               "(shift, signed overflow, bounds), termination within the unwinding bound, and the consistency post-conditions, for every value of the free field / every prefix length / every payload.")
@@ -41,7 +41,13 @@ def queries(tier):
                     desc="ReadMap over a kernel reader: all five header fields free 32-bit values; whenever the tile array is read, log-width < 32 and its byte count equals width x height x 4 in 64-bit arithmetic (allocation cap 64 bytes)"))
     qs.append(Query("group_kernel", "C07_mapsafe.cpp", "h_group_kernel", {}, unwind=70, max_alloc=64, timeout=600, cbmc_opts=["--z3"],
                     desc="ReadTileGroup over a kernel reader: width and height free 32-bit values; whenever the index array is read its byte count equals width x height x 4 in 64-bit arithmetic"))
-    # h_units_kernel (ReadSavedGameUnits over a room-checking reader) is written but not run: the 254 KB SavedGameUnits object makes the SAT
-    # back end run out of 15 GB with every field-sensitivity setting and with z3 (measured 2026-10-03).
-    # TODO(savedgame): h_savedgame (sparse reader, embedded map at 0x1E025) currently exhausts the SAT solver's memory (15 GB); not part of the claim yet.
+    # Saved games.  The 254 KB SavedGameUnits object makes the SAT back ends run out of memory (every field-sensitivity setting); the z3 back end
+    # (arrays handled natively) decides both queries: measured 77 s / 0.5 GB and 307 s / 4.5 GB.
+    U = {"_ZNSt6vectorIN10OP2Utility11ObjectType1ESaIS1_EE17_M_default_appendEm.%d" % i: 2 for i in range(4)}
+    qs.append(Query("savedgame_units_kernel", "C07_mapsafe.cpp", "h_units_kernel", {}, unwind=70, max_alloc=64, timeout=900, unwindset=U, cbmc_opts=["--z3"],
+                    desc="ReadSavedGameUnits over a reader of arbitrary content: every read request (unit header fields all symbolic) fits the object it is read into; allocation cap 64 bytes"))
+    sg = shape(1, 1, nts=1, tsl0=1, nmap=1, nter=0, ngrp=0)
+    qs.append(Query("savedgame_vs_map_" + sname(sg), "C07_mapsafe.cpp", "h_savedgame", sg, unwind=maxlen(sg) + 40, max_alloc=96, timeout=1800, unwindset=U, cbmc_opts=["--z3"],
+                    desc="ReadSavedGame over a sparse reader (embedded map of shape %s at 0x1E025, unit header symbolic with zero object counts, everything else and the stream length arbitrary): "
+                         "error, or the same dimensions/tiles/clip rectangle/tileset sources/mappings/terrain types as a map file holding that portion; a stream shorter than its content is refused" % sname(sg)))
     return qs
